@@ -285,6 +285,27 @@ def build_on(env, program):
     return env
 
 
+def safe_action(ref, a):
+    """Box actions whose image in the base environment falls (numerically) on a bin edge are nudged:
+    which side of an edge `floor((a-low)/(high-low)*nA)` lands on depends on float precision and operation
+    order inside the compiled environment, which is not part of any property."""
+    if not ref.box:
+        return a
+    nA = ref.base.nA if hasattr(ref, "base") else None
+    if nA is None:
+        return a
+    lo, hi = float(ref.low0.reshape(-1)[0]), float(ref.high0.reshape(-1)[0])
+    olo, ohi = ref.action_bounds()
+    span = float(min(ohi.reshape(-1)[0], 50.0) - max(olo.reshape(-1)[0], -50.0))
+    for _ in range(8):
+        ia = float(np.asarray(ref.map_action(a), np.float64).reshape(-1)[0])
+        f = (min(max(ia, lo), hi) - lo) / (hi - lo) * nA
+        if abs(f - round(f)) > 1e-3 or ia <= lo or ia >= hi:
+            return a
+        a = float(np.float32(a + 0.013 * span * (1 if a < (olo.reshape(-1)[0] + ohi.reshape(-1)[0]) / 2 or not np.isfinite(ohi.reshape(-1)[0]) else -1)))
+    return a
+
+
 def flatten(o):
     if isinstance(o, dict):
         return np.concatenate([flatten(o[k]) for k in o])
